@@ -113,6 +113,11 @@ pub fn check_case(c: &Case18, stats: &mut Stats) -> Vec<Failure> {
         stats.sample(|| json!({"mapping": table, "rust_type": ty.rust(false), "site": site, "mode": c.mode, "reference": obs_text(&oa), "mapped": obs_text(&ob)}));
         let mk = |kind: &str, obs: String, exp: String| Failure::new(kind).tags(base_tags.clone()).tag(format!("site={}", site)).observed(obs).expected(exp).case(case.clone());
         match (&oa, &ob) {
+            (Obs::Shape(sa, _), Obs::Shape(_, _)) if sa.to_string().contains("Other(") => {
+                // the reference rendering is not a modelled TypeScript type (a C01/C05 defect such
+                // as a mis-split generic): nothing to compare against
+                stats.excluded_known += 1;
+            }
             (Obs::Shape(sa, _), Obs::Shape(sb, srcb)) => {
                 let want = if c.generic { sa.clone() } else { subst(sa, &ref_name, &to) };
                 if *sb != want {
